@@ -111,3 +111,22 @@ def leaf_defs(defs, name, seen=None):
         else:
             out.append(val)
     return out
+
+
+def stamp_names(func, facts):
+    """(presence stamp local, placement stamp local) of the comparison
+    guarding a verbatim restore, whatever the locals are called: the two
+    sides of a `<=` both read from a node's creation time.  Which node each
+    one is read from is judged by C11.2."""
+    defs = local_defs(func)
+    pname, tname = 'presence_time', 'placement_time'
+    for fact in facts:
+        key = fact.key
+        if key[0] == 'cmp' and key[1] in ('<=', '<') and \
+                len(key[2]) == 2 and all(
+                    t.isidentifier() and any(
+                        'ctime' in N.txt(v) for v in leaf_defs(defs, t))
+                    for t, _c in key[2]):
+            pname = [t for t, c in key[2] if c > 0][0]
+            tname = [t for t, c in key[2] if c < 0][0]
+    return pname, tname
